@@ -89,7 +89,9 @@ type Ctl struct {
 	InFlight  int  // scripted Plot() calls in flight
 	MaxFlight int
 	PlotCalls int
-	Log       []string
+	// UsedAfterDelete lists calls (Plot, GetProof) the keeper made on a plot DB after it had deleted it
+	UsedAfterDelete []string
+	Log             []string
 	// behaviour of scripted plots
 	CreatePlotted func(key string) bool                    // should a newly created DB be already complete
 	FreeOutcome   func(db *FakeDB) (string, time.Duration) // free-running: outcome and duration
@@ -331,7 +333,28 @@ func (d *FakeDB) PubKey() *pocec.PublicKey { return d.pk }
 func (d *FakeDB) PubKeyHash() pocutil.Hash { return pocutil.PubKeyHash(d.pk) }
 func (d *FakeDB) Ready() bool              { d.mu.Lock(); defer d.mu.Unlock(); return d.Done }
 func (d *FakeDB) GetProof(challenge pocutil.Hash, filter bool) (*poc.DefaultProof, error) {
+	d.noteUse("GetProof")
 	return nil, ErrFakeNoProof
+}
+
+// TakeUsedAfterDelete returns and clears the list of calls made on deleted plot DBs.
+func (c *Ctl) TakeUsedAfterDelete() []string {
+	c.mu.Lock()
+	defer c.mu.Unlock()
+	u := c.UsedAfterDelete
+	c.UsedAfterDelete = nil
+	return u
+}
+
+func (d *FakeDB) noteUse(call string) {
+	d.mu.Lock()
+	del := d.Deleted
+	d.mu.Unlock()
+	if del {
+		d.c.mu.Lock()
+		d.c.UsedAfterDelete = append(d.c.UsedAfterDelete, fmt.Sprintf("%s on the deleted space %x-%d", call, d.pk.SerializeCompressed(), d.bl))
+		d.c.mu.Unlock()
+	}
 }
 
 func (d *FakeDB) Progress() (bool, bool, float64) {
@@ -346,6 +369,7 @@ func (d *FakeDB) Progress() (bool, bool, float64) {
 // Plot starts a scripted plot: it runs until the harness decides the outcome (Finish), StopPlot is called,
 // or, in free-running mode, the scripted duration is over.
 func (d *FakeDB) Plot() chan error {
+	d.noteUse("Plot")
 	res := make(chan error, 1)
 	d.mu.Lock()
 	if d.Running {
